@@ -48,7 +48,7 @@ CLAIMED = {
         level="exploration", design="§6 C17",
         technique="deterministic simulation with a virtual wall clock under humphrey-auth's session expiry (clock moved to expiry-1s / expiry / expiry+1s), real Argon2/OsRng, auth-route requests over the simulated network, reference session model checked after every step",
         text="Seeded histories of up to 60 operations over 1..5 users (create/remove user, verify right/wrong/other/unknown, create session default/0/long, refresh, invalidate by token/user, get_uid_by_token, authenticated route with valid/stale/absent cookie, clock advances onto expiry boundaries), with and without pepper, every return value compared with a reference model; tokens must be 64 hex digits and never repeat.",
-        note="Trusted: the one hook (UNIX_EPOCH.elapsed -> virtual wall clock); single driver thread (the property quantifies over histories)."),
+        note="Trusted: the two hooks in humphrey-auth (UNIX_EPOCH.elapsed -> virtual wall clock; OsRng and Uuid::new_v4 -> the run's entropy stream); single driver thread (the property quantifies over histories)."),
     "C04": dict(
         level="exploration", design="§6 C04",
         technique="deterministic simulation: generated applications (host sub-apps, HTTP and WebSocket routes) served by the real App on the simulated network to 1..4 concurrent keep-alive connections; reference first-match router over an independent DP glob matcher",
